@@ -40,10 +40,14 @@ class Env:
                 # were removed (deleted) from `os.environ`
                 cls.var_names = set(environ)
 
+                # Likewise, re-compute the mapping of cleaned env variables
+                # from the current `var_names`. Merely filtering out the
+                # removed variables is not enough here, as a removed variable
+                # might have "hidden" another one (which is still set) with
+                # the same cleaned name, ex. `myvar` and `My-Var`.
                 if cls._accessed_cleaned_to_env:
                     cls.cleaned_to_env = {
-                        k: v for k, v in cls.cleaned_to_env.items()
-                        if v in cls.var_names
+                        clean(var): var for var in cls.var_names
                     }
 
     @cached_class_property
